@@ -55,12 +55,17 @@ def run(chk: Check) -> None:
             chk.ob("R17.7", construct, ok, loc, msg, facts)
     chk.floor("R17.4", "back-pointer writes", k, 14)
     for prop, rule, construct, ok, loc, msg, facts in own.obs:
-        if rule == "R03.6":
+        if rule == "R03.6" or (rule in ("R03.1", "R03.4") and "_add_to_uuid_cache" in construct):
             chk.ob("R17.3", construct, ok, loc,
                    msg + " (duplicate-UUID detection in Node._from_protobuf relies on it)", facts)
     _decoders_use_primitives(chk)
     _validation(chk)
     _no_swallow(chk)
+    # "can be saved again": every loaded table keeps its bytes and type (C14's loader half)
+    from .c14 import _from_protobuf as _aux_from_protobuf
+    sub = chk.sub()
+    _aux_from_protobuf(sub, chk.repo.cls("AuxData"))
+    chk.adopt(sub, None, "R17.6")
 
 
 def _header(chk: Check) -> None:
@@ -73,7 +78,7 @@ def _header(chk: Check) -> None:
     al = local_aliases(f.node)
     stream = f.param_names()[0]
     reads = sorted([n for n in walk_no_nested(f.node) if isinstance(n, ast.Call)
-                    and attr_path(n.func) == (stream, "read")], key=lambda n: (n.lineno, n.col_offset))
+                    and attr_path(n.func) == (stream, "read")], key=lambda n: n._ord)
     parse = cfg.nodes_where(lambda n: isinstance(n, ast.Call) and isinstance(n.func, ast.Attribute)
                             and n.func.attr in ("ParseFromString", "_from_protobuf", "MergeFromString"))
     chk.ob("R17.1", "IR.load_protobuf_file:parses", bool(parse), f.loc(), "no parse call found", 1)
